@@ -25,6 +25,7 @@ import time
 VERIF = os.path.dirname(os.path.dirname(os.path.abspath(__file__)))
 REPO = os.environ.get("VERIF_REPO", "/repo")
 COQ = os.path.join(VERIF, "coq")
+COQ_EVAL = None      # set by the driver to a reference build (genref/) when the current generated model does not build
 OUT = os.path.join(VERIF, "out")
 PY = "/venv/bin/python"
 
@@ -359,7 +360,7 @@ def eval_coq(tag: str, preamble: str, terms: list[str], shard: int = 400, jobs: 
 
     def launch(path):
         return subprocess.Popen(
-            ["bash", "-c", f"ulimit -s unlimited 2>/dev/null; exec timeout {timeout} coqc -Q {COQ} DH {path}"],
+            ["bash", "-c", f"ulimit -s unlimited 2>/dev/null; exec timeout {timeout} coqc -Q {COQ_EVAL or COQ} DH {path}"],
             stdout=subprocess.PIPE, stderr=subprocess.STDOUT, text=True, cwd=d)
 
     pending = list(enumerate(files))
